@@ -535,7 +535,9 @@ class SplinedI3EnergySigSetOverBkgPDFRatio(
                 # This parameter applies to all sources, hence to all values,
                 # and hence it's the only local parameter contributing to the
                 # global parameter fitparam_id.
-                return self._cache['grads'][pidx]
+                # Hand out a copy, the array is kept in the cache for later
+                # calls (the other branch returns a new array, too).
+                return self._cache['grads'][pidx].copy()
 
             # The current parameter does not apply to all sources.
             # Create a values mask that matches a given source mask.
